@@ -24,6 +24,9 @@ Mag(x) == LET y == DecNorm(x) IN Len(y.ds) + y.e
 \* the leading k digits of a decimal (the rest cut off)
 Lead(x, k) == IF Len(x.ds) <= k THEN x ELSE Dec(x.sg, SubSeq(x.ds, 1, k), x.e + (Len(x.ds) - k))
 
+\* | a - b | <= h for signed decimals
+AbsWithinSigned(a, b, h) == LET d == DecSub(a, b) IN DecIsZero(d) \/ ~DecAbsLt(h, d)
+
 \* O1 on doubles of any magnitude: the operands' exact decimal expansions, exact decimal arithmetic, and the
 \* result's exact expansion within half a unit in the last place (1.2 * 10^-16 relative) of the real result
 Tol(E) == Dec(1, BigMul(E.ds, <<1, 2>>), E.e - 17)
@@ -111,10 +114,43 @@ LiteralVerdict(s) ==
                  ELSE IF ~Has(o, "xe") THEN (IF D.sg = o.x.sg /\ AbsWithin(o.x, D, Slack(D)) THEN "ok" ELSE "no;json-number-literal-value")
                  ELSE IF Nearest(o, D) THEN "ok" ELSE "no;json-number-literal-value"
 
+\* A3 on doubles of any magnitude: $sum $max $min $average $count of an array of numbers.  The sum is the real sum up to the
+\* rounding of n - 1 additions (n * 1.2 * 10^-16 of the sum of the magnitudes); max and min are members; the average is the sum over n.
+RECURSIVE DecSumSeq(_, _, _), DecAbsSumSeq(_, _, _)
+DecSumSeq(xs, i, acc) == IF i > Len(xs) THEN acc ELSE DecSumSeq(xs, i + 1, DecAdd(acc, xs[i]))
+DecAbsSumSeq(xs, i, acc) == IF i > Len(xs) THEN acc ELSE DecAbsSumSeq(xs, i + 1, DecAdd(acc, Dec(1, xs[i].ds, xs[i].e)))
+AggVerdict(s) ==
+    LET o == s.out  n == Len(s.xs) IN
+    IF ~Has(s, "xes") THEN "inc:operand with a long binary expansion"
+    ELSE LET X == [i \in 1..n |-> Lead(s.xes[i], 40)]
+             hasNum == o.o = "val" /\ Has(o, "xe")
+             total == DecSumSeq(X, 1, Dec(0, <<0>>, 0))
+             mags == DecAbsSumSeq(X, 1, Dec(0, <<0>>, 0))
+             tol == IF DecIsZero(mags) THEN Dec(1, <<0>>, 0) ELSE Dec(1, BigMul(mags.ds, NatDigits(12 * (n + 1))), mags.e - 17)
+             span == LET lo == MinS({X[i].e : i \in 1..n})  hi == MaxS({Len(X[i].ds) + X[i].e : i \in 1..n}) IN hi - lo
+         IN  IF n = 0 THEN (IF s.name = "sum" THEN (IF hasNum /\ DecIsZero(o.xe) THEN "ok" ELSE "no;num-agg-empty-sum")
+                            ELSE IF s.name = "count" THEN (IF hasNum /\ DecIsZero(o.xe) THEN "ok" ELSE "no;num-agg-count")
+                            ELSE IF o.o = "err" \/ o.o = "undef" THEN "ok" ELSE "inc:aggregate of an empty array")
+             ELSE IF span > 120 THEN "inc:members very far apart"
+             ELSE CASE s.name = "count" -> IF hasNum /\ DecSame(o.xe, Dec(1, NatDigits(n), 0)) THEN "ok" ELSE "no;num-agg-count"
+                    [] s.name \in {"max", "min"} ->
+                         LET best == CHOOSE i \in 1..n : \A j \in 1..n : IF s.name = "max" THEN ~DecLt(s.xes[i], s.xes[j]) ELSE ~DecLt(s.xes[j], s.xes[i])
+                         IN  IF hasNum /\ DecSame(o.xe, s.xes[best]) THEN "ok" ELSE "no;num-agg-extreme"
+                    [] s.name = "sum" ->
+                         IF ~DecIsZero(total) /\ Mag(total) >= 310 THEN (IF o.o = "err" THEN "ok" ELSE "no;num-agg-overflow-not-reported")
+                         ELSE IF o.o = "err" THEN (IF Mag(mags) >= 309 THEN "inc:result at the edge of the double range" ELSE "no;num-agg-failed")
+                         ELSE IF ~hasNum THEN "inc:result with a long binary expansion"
+                         ELSE IF AbsWithinSigned(o.xe, total, tol) THEN "ok" ELSE "no;num-agg-wrong-sum"
+                    [] s.name = "average" ->
+                         IF o.o = "err" THEN (IF Mag(mags) >= 309 THEN "inc:result at the edge of the double range" ELSE "no;num-agg-failed")
+                         ELSE IF ~hasNum THEN "inc:result with a long binary expansion"
+                         ELSE IF AbsWithinSigned(DecMul(o.xe, Dec(1, NatDigits(n), 0)), total, DecAbsAdd(tol, tol)) THEN "ok" ELSE "no;num-agg-wrong-average"
+                    [] OTHER -> "inc:aggregate outside TraceNum"
+
 StepVerdict(s) ==
     LET o == s.out IN
     IF o.o = "bad" THEN "inc:the harness could not pose the case"
-    ELSE IF o.o \notin {"val", "err"} THEN "no;num-" \o o.o
+    ELSE IF o.o \notin {"val", "err"} /\ ~(s.fn = "agg" /\ o.o = "undef") THEN "no;num-" \o o.o
     ELSE CASE s.fn = "fmt" ->
               LET F == FormatOf(s)
                   valid == PictureValid(s.pic, F)
@@ -154,6 +190,7 @@ StepVerdict(s) ==
                        ELSE IF Has(o, "xe") /\ Mag(D) > 0 - 300 /\ Mag(D) < 300 THEN (IF DecSign(o.xe) = DecSign(D) /\ Nearest(o, D) THEN "ok" ELSE "no;num-numeral-value")
                        ELSE IF D.sg = o.x.sg /\ AbsWithin(o.x, D, Slack(D)) THEN "ok" ELSE "no;num-numeral-value"
            [] s.fn = "op" -> OpVerdict(s)
+           [] s.fn = "agg" -> AggVerdict(s)
            [] OTHER -> "no;num-" \o o.o
 
 RECURSIVE FirstBad(_, _)
